@@ -276,11 +276,13 @@ package car
 //@   call[index.WriteTo#0] assert index_after_payload [C10]: ref(arg0) == ref(idx) && ref(arg1) == ref(dst)
 
 //@ func (*Reader).IndexReader
+//@   ensures every_call_hands_out_a_fresh_reader_at_the_start_of_the_index [C07,C10,C13]: err == nil && result0 != nil ==> freshobj(result0) && pos(result0) == sbase(result0)
 //@   call[io.NewOffsetReadSeeker#0] assert at_the_declared_index_offset [C07,C13]: r.Version != 1 && r.Header.IndexOffset != 0 && ref(arg0) == ref(r.r) && arg1 == wrap_s64(r.Header.IndexOffset)
 //@   ensures a_declared_index_is_handed_out [C07,C13]: r.Version != 1 && r.Header.IndexOffset != 0 && err == nil ==> result0 != nil
 //@   ensures absent [C07,C13]: r.Version == 1 || r.Header.IndexOffset == 0 ==> result0 == nil && err == nil
 
 //@ func (*Reader).DataReader
+//@   ensures every_call_hands_out_a_fresh_reader [C07,C10,C13]: err == nil ==> freshobj(result0)
 //@   call[io.NewSectionReader#0] assert the_payload_window_of_a_v2 [C07,C10,C13]: r.Version == 2 && ref(arg0) == ref(r.r) && arg1 == wrap_s64(r.Header.DataOffset) && arg2 == wrap_s64(r.Header.DataSize)
 //@   call[io.NewOffsetReadSeeker#0] assert a_v1_from_its_start [C07,C13]: r.Version != 2 && ref(arg0) == ref(r.r) && arg1 == 0
 //@   ghostinit result0
